@@ -3,6 +3,7 @@ def props(P):
     sim = lambda test, q, th, **kw: P("sim", test, q, th, **kw)
     store = lambda test, q, th, **kw: P("storepbt", test, q, th, **kw)
     front = lambda test, q, th, **kw: P("front", test, q, th, **kw)
+    proc = lambda test, q, th, **kw: P("proc", test, q, th, extra_env={"VERIF_NEEDS_SERVER": "1"}, **kw)
     return {
         "C01": sim("TestC01", (1200, 300), (16, 2500, 1500)),
         "C02": sim("TestC02", (400, 300), (16, 1500, 1800)),
@@ -15,6 +16,7 @@ def props(P):
         "C09": sim("TestC09", (1200, 300), (16, 3000, 1500)),
         "C10": sim("TestC10", (1200, 300), (16, 2500, 1500)),
         "C11": sim("TestC11", (300, 300), (16, 1200, 1800), regress="TestRegressC11"),
+        "C13": proc("TestC13", (4, 420), (12, 10, 3000)),
         "C14": sim("TestC14", (600, 300), (16, 2500, 1800)),
         "C15": front("TestC15", (1500, 300), (8, 20000, 1200)),
         "C12": P("kernelq", "TestC12", (1500, 300), (16, 6000, 1800)),
